@@ -345,7 +345,7 @@ func (st *State) convert(x Value, from, to types.Type) Value {
 	case fi.kind == kInt && ti.kind == kString:
 		t := tm(x)
 		if !t.IsConst() {
-			st.end("UNSUPPORTED", "string(rune) with symbolic rune")
+			return st.symbolicRuneString(c.Resize(t, 32, fi.signed))
 		}
 		r := rune(int64(sextU(t.V, t.W)))
 		if !fi.signed {
@@ -535,4 +535,28 @@ func roundupsize(n int) int {
 		}
 	}
 	return (n + 8191) &^ 8191
+}
+
+// symbolicRuneString: string(rune) for a symbolic rune: the encoded length
+// class is decided by branching, the bytes are arithmetic terms.
+func (st *State) symbolicRuneString(r *smt.Term) Value {
+	c := st.c
+	k := func(v uint64) *smt.Term { return c.Const(v, 32) }
+	b8 := func(t *smt.Term) *smt.Term { return c.Extract(t, 7, 0) }
+	var bs []*smt.Term
+	switch {
+	case st.branch(c.Ult(r, k(0x80)), "rune-1"):
+		bs = []*smt.Term{b8(r)}
+	case st.branch(c.Ult(r, k(0x800)), "rune-2"):
+		bs = []*smt.Term{b8(c.Or(k(0xc0), c.LShr(r, k(6)))), b8(c.Or(k(0x80), c.And(r, k(0x3f))))}
+	case st.branch(c.BOr(c.BAnd(c.Ule(k(0xd800), r), c.Ult(r, k(0xe000))), c.Ult(k(0x10ffff), r)), "rune-invalid"):
+		bs = []*smt.Term{c.Const(0xef, 8), c.Const(0xbf, 8), c.Const(0xbd, 8)}
+	case st.branch(c.Ult(r, k(0x10000)), "rune-3"):
+		bs = []*smt.Term{b8(c.Or(k(0xe0), c.LShr(r, k(12)))), b8(c.Or(k(0x80), c.And(c.LShr(r, k(6)), k(0x3f)))), b8(c.Or(k(0x80), c.And(r, k(0x3f))))}
+	default:
+		bs = []*smt.Term{b8(c.Or(k(0xf0), c.LShr(r, k(18)))), b8(c.Or(k(0x80), c.And(c.LShr(r, k(12)), k(0x3f)))),
+			b8(c.Or(k(0x80), c.And(c.LShr(r, k(6)), k(0x3f)))), b8(c.Or(k(0x80), c.And(r, k(0x3f))))}
+	}
+	p := st.newBytesObject(bs, len(bs), "runestring")
+	return Agg{p, c.Const(uint64(len(bs)), 64)}
 }
